@@ -159,3 +159,110 @@ STEP_SWITCH = Contract(
          "step of the call and active again afterwards); no other switching anywhere in step()")
 
 VARIANTS = [ENABLE, DISABLE, STEP_SWITCH]
+
+
+# ----------------------------------------------------------------------------- mask_input / mask_output: the CURRENT flags, read afresh on every access
+from pyvc.engine import Unsupported, PyStr      # noqa: E402
+from pyvc.state_engine import FlagItem          # noqa: E402
+import ast as _ast                              # noqa: E402
+
+has_active = z3.Function("element_has_attribute_active", V, IntS, BoolS)       # (lst, position)
+unknown_attr = {}
+
+
+class MaskEngine(StateEngine):
+    """StateEngine + what the two mask properties use: `vv.active` read, hasattr(vv, "active"), list building, np.array(list).
+    An attribute of `self` that the contract does not declare is an UNKNOWN value (whatever an earlier call may have left there): code that
+    answers from such an attribute cannot be proved to return the current flags -- the obligation fails instead of the contract going stale."""
+
+    def getattr(self, obj, attr, cx, node=None):
+        if isinstance(obj, FlagItem) and attr == "active":
+            return PyBool(cx.st.env["act"].at(obj.pos))
+        if isinstance(obj, PyRec) and attr not in obj.fields and not (node is not None and isinstance(getattr(node, "ctx", None), _ast.Store)):
+            import ast as __a
+            parent_is_call = False
+            if not attr.startswith("__"):
+                # method call on self is handled by the base class (BoundMethod); a plain attribute read yields an unknown value
+                if (attr, id(cx.st)) not in unknown_attr:
+                    unknown_attr[(attr, id(cx.st))] = FreshConst(V, "self_" + attr)
+                return PyObj(unknown_attr[(attr, id(cx.st))])
+        return super().getattr(obj, attr, cx, node)
+
+    def _is_lst(self, v, cx):
+        rec = cx.st.env.get("self")
+        return isinstance(v, PyObj) and isinstance(rec, PyRec) and any(isinstance(f, PyObj) and v.t.eq(f.t) for f in rec.fields.values())
+
+    def builtin_hasattr(self, e, cx):
+        o = self.eval(e.args[0], cx)
+        if isinstance(o, FlagItem) and isinstance(e.args[1], _ast.Constant) and e.args[1].value == "active":
+            return PyBool(has_active(cx.st.env["lst"].t, o.pos))
+        raise Unsupported("hasattr form")
+
+    def iterate(self, v, cx):
+        en = super().iterate(v, cx)
+        if getattr(en, "flag_items", False):
+            en.elem = lambda k_: FlagItem(k_)      # (comprehensions take their elements through elem())
+        return en
+
+    def builtin_getattr(self, e, cx):
+        if len(e.args) == 3 and isinstance(e.args[1], _ast.Constant) and e.args[1].value == "active":
+            o, dflt = self.eval(e.args[0], cx), self.eval(e.args[2], cx)
+            if isinstance(o, FlagItem) and isinstance(dflt, PyBool):
+                return PyBool(z3.If(has_active(cx.st.env["lst"].t, o.pos), cx.st.env["act"].at(o.pos), dflt.t))
+        return super().builtin_getattr(e, cx)
+
+    def eval_List(self, e, cx):
+        if not e.elts:
+            return PySeq.empty(TBool)
+        return super().eval_List(e, cx)
+
+    def call_method(self, recv, name, e, cx, recv_node):
+        if isinstance(recv_node, _ast.Name) and recv_node.id == "np" and name in ("array", "asarray") and len(e.args) == 1 \
+                and all(k.arg == "dtype" and isinstance(k.value, _ast.Name) and k.value.id == "bool" for k in e.keywords):
+            return self.eval(e.args[0], cx)          # an array of the list's elements, in order
+        return super().call_method(recv, name, e, cx, recv_node)
+
+    def eval_Name(self, e, cx):
+        if e.id == "np" and e.id not in cx.st.env:
+            return PyObj(z3.Const("py_global_np", V))
+        return super().eval_Name(e, cx)
+
+    def coerce(self, v, ty, cx, what):
+        if isinstance(v, PyObj) and isinstance(ty, TSeq):
+            r = ty.fresh("unknown_seq")              # an opaque value returned where a sequence is expected: nothing is known about it
+            for ax in r.axioms:
+                cx.assume(ax)
+            return r
+        return super().coerce(v, ty, cx, what)
+
+    def setattr_hook(self, obj, attr, v, cx, node):
+        if isinstance(obj, PyRec):
+            return                                   # a store into an undeclared attribute of self: allowed, not part of the result
+        return super().setattr_hook(obj, attr, v, cx, node)
+
+
+def _mask_contract(prop, field):
+    def post(o, n, r):
+        lst = o.lst.t
+        return z3.And(r.n == seq_len(lst), z3.ForAll([i], z3.Implies(z3.And(0 <= i, i < seq_len(lst)),
+                                                                     r.at(i) == z3.If(has_active(lst, i), o.act.at(i), True)), patterns=[r.at(i)]))
+
+    def inv(L):
+        lst = L.old.lst.t
+        m = L.cur.mask
+        return z3.And(0 <= L.k, L.k <= L.n, L.n == seq_len(lst), m.n == L.k,
+                      z3.ForAll([i], z3.Implies(z3.And(0 <= i, i < L.k), m.at(i) == z3.If(has_active(lst, i), L.old.act.at(i), True)), patterns=[m.at(i)]))
+    return Contract(
+        module=M, qualname=f"MeritFunctionForMatch.{prop}",
+        params=dict(self=TRec("MeritFunctionForMatch", {field: TV})), ghost=dict(act=TFlags, lst=TV), result=TSeq(TBool),
+        requires=[("lst-is-the-list", lambda s: s.lst.t == getattr(s.self, field).t), ("flags-per-element", lambda s: z3.And(s.act.n == seq_len(s.lst.t), seq_len(s.lst.t) >= 0))],
+        ensures=[(f"one entry per element of self.{field}, in order: its CURRENT `active` flag (True for an element without one)", post)],
+        loops={0: LoopSpec(anchor=f"self.{field}", invariants=[("mask == flags of the first k elements", inv)])},
+        min_obligations=3, extra=dict(engine=MaskEngine, frame_ghosts=False),
+        note="read afresh on every access: enable()/disable(), the older enable_all_* entry points, reload() and plain assignment to .active all take "
+             "effect on the next evaluation")
+
+
+MASK_INPUT = _mask_contract("mask_input", "vary")
+MASK_OUTPUT = _mask_contract("mask_output", "targets")
+CONTRACTS += [MASK_INPUT, MASK_OUTPUT]
